@@ -94,6 +94,17 @@ void Logger::processMessage(QtMsgType type, const QMessageLogContext &context,
 
     LogMessage lmsg(type, context, message);
     process(lmsg);
+
+    // A fatal message aborts the process as soon as the handler returns: what the file sinks
+    // still hold in their buffers must reach the files now. With the logger running in its own
+    // thread the sinks belong to that thread and are left alone.
+#ifndef QTLOGGER_NO_THREAD
+    if (type == QtFatalMsg && !ownThreadIsRunning()) {
+#else
+    if (type == QtFatalMsg) {
+#endif
+        flush();
+    }
     QTLOGGER_VERIF_POINT("logger.exit", this);
 }
 
